@@ -201,6 +201,9 @@ def iter_cases(ctx: Ctx, fns: list[gen.Fn]):
     yield (byname["tdiv_int"], [2 ** 53 + 1, 3], "witness")
     yield (byname["eq_int_float"], [2 ** 53 + 1, 2.0 ** 53], "witness")
     yield (byname["lt_float_int"], [1.5, 10 ** 400], "witness")
+    for name, args in REPLAYS:          # model counterexamples of translated helpers, replayed on the real code
+        if name in byname:
+            yield (byname[name], args, "model-counterexample")
     for fn in fns:
         if fn.group == "norm":
             yield from norm_cases(ctx, fn, B)
@@ -620,6 +623,16 @@ HELPER_SPEC = {      # translated helper functions that no harness operation rea
 }
 
 
+HELPER_REPLAY = {     # how a model counterexample of a helper is replayed on the compiled harness
+    "CPyTagged_IsAddOverflow": lambda l, r: [("add_int", [s64(l) >> 1, s64(r) >> 1])] if (l | r) & 1 == 0 else [],
+    "CPyTagged_IsSubtractOverflow": lambda l, r: [("sub_int", [s64(l) >> 1, s64(r) >> 1])] if (l | r) & 1 == 0 else [],
+    "CPyTagged_TooBig": lambda v: [("back_i64", [s64(v)]), ("norm_back_i64", [s64(v), s64(v)])],
+    "CPyTagged_TooBigInt64": lambda v: [("back_i64", [s64(v)]), ("norm_back_i64", [s64(v), s64(v)])],
+    "CPyTagged_ShortAsSsize_t": lambda v: [("conv_i64", [s64(v) >> 1])] if v & 1 == 0 else [],
+}
+REPLAYS: list[tuple[str, list]] = []
+
+
 def helper_search(ctx: Ctx, inv: dict) -> list[str]:
     """Evaluate the translated helper functions on boundary words in the model; report contradictions with
     their specification (model counterexamples for the replay of a broken obligation)."""
@@ -646,6 +659,8 @@ def helper_search(ctx: Ctx, inv: dict) -> list[str]:
         ctx.dist("model_helper_checks", name)
         if o != f"val {want} ub=0":
             bad.append(f"{name}{tuple(s64(a) for a in args)} = `{o}` in the model, specification says {want}")
+            if name in HELPER_REPLAY and len(REPLAYS) < 400:
+                REPLAYS.extend(HELPER_REPLAY[name](*args))
     return bad
 
 
@@ -708,6 +723,7 @@ def load_tables(inv: dict) -> dict:
 
 def main(ctx: Ctx) -> None:
     from translate import cfast
+    REPLAYS.clear()
     ctx.level = "proof"
     ctx.coverage["rule"] = (
         "a case = (harness function, operand tuple, opt level); boundary cases: full products of the boundary set "
@@ -781,7 +797,9 @@ def main(ctx: Ctx) -> None:
         ctx.violation("the specification the theorems are stated against is not CPython's operator: " + b,
                       {"broken": "Model/Tagged.lean specification vs CPython", "detail": b}, found_input=False)
     if helper_bad:
-        ctx.broken_ties.append("model counterexamples (translated helper vs its specification): " + "; ".join(helper_bad[:6]))
+        ctx.broken_ties.append("model counterexamples (translated helper vs its specification): " + "; ".join(helper_bad[:6])
+                               + f" — {len(REPLAYS)} operand tuples derived from them are replayed on the compiled harness "
+                                 "(stream `model-counterexample`)")
     dirs = {opt: f.result() for opt, f in builds.items()}
     chunk: list[tuple[gen.Fn, list, str]] = []
     nchunk = 0
